@@ -10,6 +10,101 @@ RULE = ("as C03; classes define pre_randomize / post_randomize (inherited by der
         "call: the exact sequence of pre callbacks and of post callbacks with the model's pre-order over the composites that are "
         "random in the call; Spec oracle: no object twice, none for a non-random sub-object or below it, root always")
 
+def list_views_in_post(ck, tier, cases):
+    """What post_randomize sees of the lists of its object and of the objects around it (random-size scalar lists, fixed
+    lists, lists of objects; read through len(), iteration, indexing, sum and size) must be what the user sees once the
+    call has returned; pre_randomize sees what the user saw before the call.  Both callbacks once per call."""
+    if cases is not None:
+        return
+    import random
+    import solvelib as S
+    S.install()
+    import vsc
+    from vsc.model.rand_state import RandState
+    rng = random.Random("C17/list-views/%d" % ck.seed)
+    LOG = []
+
+    def view(o):
+        return {"rs": [int(v) for v in o.rs], "rs_len": len(o.rs), "rs_size": int(o.rs.size), "rs_sum": int(o.rs.sum),
+                "rs_last": int(o.rs[len(o.rs) - 1]) if len(o.rs) else None,
+                "fx": [int(v) for v in o.fx], "x": int(o.x)}
+
+    @vsc.randobj
+    class Leaf:
+        def __init__(self):
+            self.x = vsc.rand_uint8_t()
+            self.rs = vsc.randsz_list_t(vsc.uint8_t())
+            self.fx = vsc.rand_list_t(vsc.uint8_t(), 3)
+
+        @vsc.constraint
+        def c(self):
+            self.rs.size >= 1
+            self.rs.size <= 6
+            with vsc.foreach(self.rs) as e:
+                e < 50
+
+        def pre_randomize(self):
+            LOG.append(("pre", id(self), view(self)))
+
+        def post_randomize(self):
+            LOG.append(("post", id(self), view(self)))
+
+    @vsc.randobj
+    class Top:
+        def __init__(self):
+            self.y = vsc.rand_uint8_t()
+            self.leaf = vsc.rand_attr(Leaf())
+            self.items = vsc.rand_list_t(Leaf())
+            for _ in range(2):
+                self.items.append(Leaf())
+
+        def pre_randomize(self):
+            LOG.append(("pre", id(self), [view(l) for l in [self.leaf] + list(self.items)]))
+
+        def post_randomize(self):
+            LOG.append(("post", id(self), [view(l) for l in [self.leaf] + list(self.items)]))
+    for h in range(40 if tier == "thorough" else 5):
+        t = Top()
+        for c in range(rng.randint(2, 5)):
+            sd = rng.randrange(1 << 30)
+            t.set_randstate(RandState.mkFromSeed(sd))
+            leaves = [t.leaf] + list(t.items)
+            before = {id(l): view(l) for l in leaves}
+            before[id(t)] = [view(l) for l in leaves]
+            del LOG[:]
+            case = {"history": h, "call": c, "seed": sd}
+            try:
+                with common.quiet():
+                    if rng.random() < 0.3:
+                        with t.randomize_with() as it:
+                            it.leaf.rs.size <= 2
+                    else:
+                        t.randomize()
+            except Exception as e:
+                ck.oracle_fail("list-views:call-raised:%s" % type(e).__name__, case, str(e)[:200], "a normal return")
+                break
+            ck.count("eval_list_view_calls")
+            after = {id(l): view(l) for l in leaves}
+            after[id(t)] = [view(l) for l in leaves]
+            bad = None
+            for ph, ref in (("pre", before), ("post", after)):
+                seen = [(i, v) for p_, i, v in LOG if p_ == ph]
+                if sorted(i for i, _ in seen) != sorted(ref):
+                    bad = ("callback-%s-not-exactly-once-per-random-object:lists" % ph, {"calls": len(seen)}, {"objects": len(ref)})
+                    break
+                for i, v in seen:
+                    if v != ref[i]:
+                        bad = ("%s_randomize-saw-%s-list-values" % (ph, "non-final" if ph == "post" else "other-than-current"),
+                               {"seen": v, "owner_is_top": i == id(t)}, {"user_sees_%s_the_call" % ("after" if ph == "post" else "before"): ref[i]})
+                        break
+                if bad:
+                    break
+            if bad:
+                ck.oracle_fail(bad[0], case, bad[1], bad[2])
+                break
+    ck.sample({"kind": "list views inside callbacks"})
+
+
 if __name__ == "__main__":
     common.run_main(lambda: worldcheck.standard_main(
         "C17", ["C17"], THEOREMS, {"nops": 6, "deep": 0.6}, 150, 6000,
@@ -21,4 +116,4 @@ if __name__ == "__main__":
         "what it sees must equal the values after the call",
         keep=lambda w: w.startswith("callback") or w.startswith("used_rand") or w.startswith("instantiation") or w.startswith("world")
         or w.startswith("post_randomize") or w.startswith("randset") or w.startswith("nonrandom-field-changed")
-        or w.startswith("hard-constraint-violated")))
+        or w.startswith("hard-constraint-violated"), extra_run=list_views_in_post))
